@@ -41,13 +41,13 @@ def Series(params: SeriesParams) -> h.Module:
     if params.nser == 1:
         return Wrapper(params.unit)  # Easy mode
 
-    from .instantiable import io
+    from .instantiable import io, bundled_io
 
     # Initialize our stack-module
     m = h.Module()
 
     # Copy the unit-cell ports, signal- and bundle-valued alike
-    for p in io(params.unit).values():
+    for p in bundled_io(params.unit).values():
         m.add(deepcopy(p))
 
     # Divy up the ports by series vs parallel connections
@@ -120,14 +120,14 @@ def Wrapper(m: h.Instantiable) -> h.Module:
     Callers of `Wrapper` are therefore responsible for considerations such as unique naming.
     """
 
-    from .instantiable import io
+    from .instantiable import bundled_io
 
     # Initialize our wrapper-module
     wrapper = h.Module(name=f"{m.name}Wrapper")
 
     # Copy the inner-cell ports
     # Note this also serves as the connections-dict to the inner instance
-    wrapper_io = {p.name: wrapper.add(deepcopy(p)) for p in io(m).values()}
+    wrapper_io = {p.name: wrapper.add(deepcopy(p)) for p in bundled_io(m).values()}
 
     # Create the inner instance
     wrapper.add(h.Instance(name="inner", of=m)(**wrapper_io))
